@@ -3,7 +3,9 @@ package c07
 
 import (
 	"context"
+	"encoding/json"
 	"fmt"
+	"net/http/httptest"
 	"sort"
 	"strconv"
 	"strings"
@@ -39,7 +41,7 @@ func TestMain(m *testing.M) {
 var worldCfg = vworld.Config{
 	MaxPermanodes: 2, MaxAttrClaims: 12, MaxDeletes: 7, MaxChain: 4,
 	TwoSigners: true, RefValues: false,
-	Attrs:  []string{"tag", "tag", "title", "x|y", "latitude", "longitude"},
+	Attrs:  []string{"tag", "tag", "title", "x|y", "latitude", "longitude", "r&d+q a"},
 	Values: []string{"a", "a", "b", "", "a|b", "50% off", "sp ace", "ünï-✓"},
 }
 
@@ -187,7 +189,9 @@ type judge struct {
 	divergent  bool // some answer was explained by only a strict subset of the readings
 }
 
-func newJudge(path string) *judge { return &judge{path: path, consistent: append([]reading(nil), readings...)} }
+func newJudge(path string) *judge {
+	return &judge{path: path, consistent: append([]reading(nil), readings...)}
+}
 
 // check: match(claims, reading) says whether the observed answer equals the
 // reference over that claim selection under that reading.
@@ -506,6 +510,38 @@ func TestAttrAndDeletionSemantics(t *testing.T) {
 			attrs, vals := w.AttrsOn(pn)
 			times := queryTimes(w, pn)
 
+			// the claims request as pkg/client sends it (ClaimsRequest.URLSuffix, GET camli/search/claims) must
+			// select the same claims as the same request made in-process, for attribute names of any bytes
+			for _, af := range append([]string{""}, attrs...) {
+				creq := &search.ClaimsRequest{Permanode: pref, AttrFilter: af}
+				inproc, err := sh.GetClaims(creq)
+				if err != nil {
+					violations = append(violations, fmt.Sprintf("rows/GetClaims(P%d, attr=%q): %v", pn, af, err))
+					continue
+				}
+				hreq := httptest.NewRequest("GET", "http://verif.invalid/my-search/"+creq.URLSuffix(), nil)
+				hreq.Header.Set("X-Prefixhandler-Pathsuffix", "camli/search/claims") // httputil.PathSuffixHeader
+				rec := httptest.NewRecorder()
+				sh.ServeHTTP(rec, hreq)
+				var hres search.ClaimsResponse
+				if rec.Code != 200 || json.Unmarshal(rec.Body.Bytes(), &hres) != nil {
+					violations = append(violations, fmt.Sprintf("rows/claims over HTTP (P%d, attr=%q): HTTP %d %.200q", pn, af, rec.Code, rec.Body.String()))
+					continue
+				}
+				var a, b []string
+				for _, c := range inproc.Claims {
+					a = append(a, c.BlobRef.String())
+				}
+				for _, c := range hres.Claims {
+					b = append(b, c.BlobRef.String())
+				}
+				sort.Strings(a)
+				sort.Strings(b)
+				nq++
+				if !eqStrings(a, b) {
+					violations = append(violations, fmt.Sprintf("rows/claims over HTTP: GET %s selects %d claims %v; the same request in-process selects %d claims %v", creq.URLSuffix(), len(b), b, len(a), a))
+				}
+			}
 			// AppendClaims on all three paths: exactly the non-deleted claims
 			for _, sg := range signers {
 				for _, af := range append([]string{""}, attrs...) {
